@@ -203,6 +203,29 @@ def coset_product(ism, sg):
 lines, pending = [], []
 
 
+class ConstraintRecorder:
+    """records what ISMAGS._make_constraints returns during one call of the real code (the constraints the
+    search really uses, also when the cosets come from a shared symmetry cache), in the iteration order of
+    that very set object (the order `_remove_node` walks it in)"""
+
+    def __init__(self, ism):
+        self.value = None
+        self.cosets = None
+        ism._make_constraints = self
+
+    def __call__(self, cosets):
+        res = ISMAGS._make_constraints(cosets)
+        self.cosets = [[k, sorted(v)] for k, v in cosets.items()]
+        self.value = res
+        return res
+
+    def take(self):
+        """[[low, high], ...] in set-iteration order; [] when the call made no constraints (symmetry=False)"""
+        v, self.value = self.value, None
+        return [list(c) for c in v] if v is not None else []
+
+
+
 def add(cid, ln, impl, errs, nontriv, finding=None):
     lines.append(ln)
     pending.append((cid, ln, impl, errs, nontriv, finding))
@@ -223,6 +246,8 @@ class Pair:
         self.auts_maps = [dict(zip(self.order, a)) for a in self.auts]
         self.naut = len(self.auts)
         self._full = self._mcis = None
+        ecols = {d.get('c', 0) for _, _, d in g.edges(data=True)} | {d.get('c', 0) for _, _, d in sg.edges(data=True)}
+        self.edge_none = 0 if (len(ecols) > 1 or explicit) else 1   # matcher() passes edge_match=None
 
     def full(self):
         if self._full is None:
@@ -258,12 +283,15 @@ def call_iso(cid, P, ism, symmetry, alias=False, ctx=''):
     fullset = set(full)
     nontriv = len(sg) >= 3 and (len(full) >= 1 or naut > 1)
     errs = []
+    rec = ConstraintRecorder(ism)
     try:
         it = ism.subgraph_isomorphisms_iter(symmetry=symmetry) if alias else ism.find_isomorphisms(symmetry=symmetry)
         raw = list(it)
     except Exception as e:  # noqa
         raw = []
         errs.append('exception %s: %s' % (type(e).__name__, e))
+    cosets_used = rec.cosets
+    cons = rec.take()
     out = []
     for d in raw:
         inv = {s: t for t, s in d.items()}
@@ -327,6 +355,17 @@ def call_iso(cid, P, ism, symmetry, alias=False, ctx=''):
         impl = 'classes=%d ok' % len(out)
         add('%s-sym' % cid, line('sym', P.gn, P.ge, P.sn, P.se, [list(m) for m in out]), impl,
             [ctx + e for e in errs], nontriv, finding)
+        if cosets_used is not None:
+            # _make_constraints: transcription on the cosets the real code used
+            add('%s-tcons' % cid, line('tcons', cosets_used), enc(sorted(cons)), [], nontriv and bool(cons))
+            chk.count('constraints=%s' % (len(cons) if len(cons) <= 2 else '3-6' if len(cons) <= 6 else '>6'))
+            if any(lo >= hi for lo, hi in cons):
+                chk.count('constraint_not_low_lt_high')
+    # the TRANSCRIPTION of find_isomorphisms/_map_nodes (C06_Ismags.lean) with the constraints the real
+    # call used must yield the same mappings with the same multiplicities (sorted: the yield order depends
+    # on CPython's set iteration order)
+    add('%s-tiso%d' % (cid, int(symmetry)), line('tiso', P.edge_none, P.gn, P.ge, P.sn, P.se, cons),
+        enc([list(m) for m in sorted(out)]), [], nontriv)
 
 
 def call_lcs(cid, P, ism, symmetry, ctx=''):
@@ -336,11 +375,13 @@ def call_lcs(cid, P, ism, symmetry, ctx=''):
     nontriv = len(sg) >= 3 and (k >= 2 or naut > 1)
     pos = {p: i for i, p in enumerate(order)}
     errs = []
+    rec = ConstraintRecorder(ism)
     try:
         raw = list(ism.largest_common_subgraph(symmetry=symmetry))
     except Exception as e:  # noqa
         raw = []
         errs.append('exception %s: %s' % (type(e).__name__, e))
+    cons = rec.take()
     out = []
     for d in raw:
         inv = {s: t for t, s in d.items()}
@@ -348,6 +389,10 @@ def call_lcs(cid, P, ism, symmetry, ctx=''):
         if why:
             errs.append('yielded mapping is not a common induced subgraph (%s): %r' % (why, d))
         out.append(tuple(sorted(inv.items(), key=lambda x: pos.get(x[0], -1))))
+    # TRANSCRIPTION of largest_common_subgraph/_largest_common_subgraph/_remove_node with the constraints of
+    # the real call, in the iteration order of the real constraints set: same mappings, same multiplicities
+    add('%s-tlcs%d' % (cid, int(symmetry)), line('tlcs', P.gn, P.ge, P.sn, P.se, cons),
+        enc([[list(pt) for pt in m] for m in sorted(out, key=lambda m: [x for pt in m for x in pt])]), [], nontriv)
     if not out:
         # nothing in common is reported as "no result"; the reference reports the empty map
         chk.count('lcs_no_result')
@@ -375,6 +420,21 @@ def call_lcs(cid, P, ism, symmetry, ctx=''):
         impl = 'size=%d ok' % max(sizes)
         add('%s-lcssym' % cid, line('lcssym', P.gn, P.ge, P.sn, P.se, [[list(pt) for pt in m] for m in uniq]),
             impl, errs, nontriv)
+
+
+def call_cand(cid, P):
+    """_find_nodecolor_candidates / _get_lookahead_candidates of a fresh matcher against their transcriptions"""
+    if not len(P.sg) or not len(P.g):
+        return
+    ism = P.matcher()
+    try:
+        nc = ism._find_nodecolor_candidates()
+        la = ism._get_lookahead_candidates()
+        impl = enc([[[sorted(s) for s in nc[u]], [sorted(la[u])] if u in la else [[]]] for u in P.order])
+    except Exception as e:  # noqa
+        impl = 'exception %s' % type(e).__name__
+    chk.count('lookahead_prunes=%s' % any(len(la.get(u, ())) < len(P.g) for u in P.order))
+    add('%s-tcand' % cid, line('tcand', P.edge_none, P.gn, P.ge, P.sn, P.se), impl, [], len(P.sg) >= 3)
 
 
 def call_bool(cid, P, ism, which, symmetry, ctx=''):
@@ -407,6 +467,7 @@ def run_pair(cid, g, sg, do_iso=True, do_lcs=False, explicit=False, alias=False)
     naut = P.naut
     chk.count('aut=%s' % (naut if naut <= 2 else '3-6' if naut <= 6 else '7-24' if naut <= 24 else '>24'))
     chk.count('pattern_nodes=%d' % len(sg))
+    call_cand(cid, P)
     if do_iso:
         full = P.full()
         if full is None:
